@@ -185,7 +185,7 @@ def _cross(a, b, c, d):
     return rt.fin(ok, why)
 
 
-QUICK = [("list", 7), ("list", 1), ("strict", 1), ("fixed", 0), ("iso", 0)]
+QUICK = [("list", 7), ("list", 1), ("list", 13), ("strict", 1), ("fixed", 0), ("iso", 0)]
 CROSS_QUICK = [("list", 0, 1)]
 
 
